@@ -1867,3 +1867,40 @@ package ice
 //@ func newWithChunkMode
 //@   at call:(*countHashWriter).Sum32#0 lemma[C11] cvdone == s && result0 == s.w.crc && s.w.crc == crcUpd(wseed(s.w), out(s.w), 0, outlen(s.w)) && wseed(s.w) == 0
 //@   at store:footer.crc#0 lemma[C11] footer.crc == s.w.crc && cvdone == s
+//@
+//@ // ---- C15/C09: a clone shares the segment's immutable chunk-offset table (it never copies the
+//@ // offsets into a table it happens to hold: that table is another segment's) and cloning writes
+//@ // no offset table at all ----
+//@ func (*docValueReader).cloneInto
+//@   ensures[C09,C15] @offset_table_shared_not_copied result0.chunkOffsets == di.chunkOffsets && contents(di.chunkOffsets) == old(contents(di.chunkOffsets))
+//@   ensures[C09,C15] @no_offset_table_written rv != nil ==> contents(old(rv.chunkOffsets)) == old(contents(rv.chunkOffsets))
+//@
+//@ // ---- C16 (builder): a field's token total is accumulated in the pass that runs on the FINAL
+//@ // field ids (after the names were sorted and renumbered), under the id of the field's name, by
+//@ // the field's reported length; the field-defining pass before the renumbering counts nothing ----
+//@ func (*interim).convert$1
+//@   ensures[C16] @defining_pass_counts_nothing s.FieldFreqs == old(s.FieldFreqs) && s.FieldDocs == old(s.FieldDocs) && forall(k, s.FieldFreqs[k] == old(s.FieldFreqs[k]) && s.FieldDocs[k] == old(s.FieldDocs[k]))
+//@
+//@ // ---- C07/C02 (merge side): in every chunk the first document's bytes start at offset 0 of
+//@ // that chunk's decompressed data (offsets are per chunk) ----
+//@ func (*docValueReader).iterateAllDocValues
+//@   loop 1 invariant[C02,C07] @chunk_starts_at_zero rangeindex == -1 ==> start == 0
+//@
+//@ // ---- C04/C07: a merged field's doc-value start offset is the stream position before anything
+//@ // of the field's doc-value section has been written ----
+//@ func buildMergedDocVals
+//@   at call:(*countHashWriter).Count#0 lemma[C04,C07] result0 == old(w.n) && w.n == old(w.n)
+//@
+//@ // ---- C10: blocks are compressed at zstd level 3 mapped through the library's level table
+//@ // (a different encoder level changes the bytes of every compressed chunk under the same version) ----
+//@ const[C10] ZSTDCompressionLevel == 3
+//@ func ZSTDCompress$1
+//@   at call:github.com/klauspost/compress/zstd.WithEncoderLevel#0 lemma[C10] level == zenc(compressionLevel)
+//@ func ZSTDCompress
+//@   requires[C10] compressionLevel == 3
+//@
+//@ // ---- C01: the sizing pass walks the locations of EVERY occurrence of a term (also of a term the
+//@ // document already had in an earlier instance of the field): the quota it reserves in the shared
+//@ // location array is what processDocument later appends ----
+//@ func (*interim).prepareDictsForDocument$1$1
+//@   ensures[C01] @every_occurrence_sized elc == old(elc) + 1
